@@ -12,6 +12,7 @@ verus! {
 //@include ../frag/heartbeat.tpl
 //@include ../frag/headers.tpl
 //@include ../frag/walk.tpl
+//@include ../frag/feepct.tpl
 
 proof fn vp_canary_axioms()
     ensures false,
